@@ -423,6 +423,97 @@ fn custom_database(rep: &mut Report) {
     }
 }
 
+/// "...any database regenerated by rbx_reflector": the reflector writes a database through its Serialize impl as
+/// MessagePack (`rmp_serde::to_vec`, or human-readable with struct maps) or JSON, and the codecs later load it through
+/// Deserialize. The bundled database goes through each of the three encodings and back and must come out with exactly
+/// the classes, superclasses, tags, descriptors (name, type, kind, tags), defaults and enums it went in with.
+fn reserialize(rep: &mut Report) {
+    use serde::Serialize;
+    let db = dbwalk::db();
+    let no = |_: Ref| J::Null;
+    let describe = |d: &rbx_reflection::ReflectionDatabase| -> BTreeMap<String, String> {
+        let mut m = BTreeMap::new();
+        m.insert("#version".into(), format!("{:?}", d.version));
+        for (cn, c) in &d.classes {
+            let mut tags: Vec<String> = c.tags.iter().map(|t| format!("{:?}", t)).collect();
+            tags.sort();
+            m.insert(format!("class {}", cn), format!("name={} super={:?} tags={:?}", c.name, c.superclass, tags));
+            for (pn, p) in &c.properties {
+                let mut ptags: Vec<String> = p.tags.iter().map(|t| format!("{:?}", t)).collect();
+                ptags.sort();
+                m.insert(format!("prop {}.{}", cn, pn), format!("name={} type={:?} kind={:?} scriptability={:?} tags={:?}", p.name, p.data_type, p.kind, p.scriptability, ptags));
+            }
+            for (dn, dv) in &c.default_properties {
+                m.insert(format!("default {}.{}", cn, dn), canon::value(dv, &no).to_string());
+            }
+        }
+        for (en, e) in &d.enums {
+            let mut items: Vec<(String, u32)> = e.items.iter().map(|(k, v)| (k.to_string(), *v)).collect();
+            items.sort();
+            m.insert(format!("enum {}", en), format!("name={} items={:?}", e.name, items));
+        }
+        m
+    };
+    let want = describe(db);
+    let encodings: Vec<(&str, Box<dyn Fn() -> Result<rbx_reflection::ReflectionDatabase<'static>, String>>)> = vec![
+        ("msgpack", Box::new(|| {
+            let b = rmp_serde::to_vec(db).map_err(|e| e.to_string())?;
+            rmp_serde::from_slice(&b).map_err(|e| e.to_string())
+        })),
+        ("msgpack-human-readable", Box::new(|| {
+            let mut b = Vec::new();
+            let mut ser = rmp_serde::Serializer::new(&mut b).with_human_readable().with_struct_map();
+            db.serialize(&mut ser).map_err(|e| e.to_string())?;
+            // read back the way it was written (a plain from_slice is not human-readable and expects other forms)
+            let mut de = rmp_serde::Deserializer::new(&b[..]).with_human_readable();
+            serde::Deserialize::deserialize(&mut de).map_err(|e| e.to_string())
+        })),
+    ];
+    // the JSON form is written for the Lua side (rbx_dom_lua/src/database.json) and is never read back by the Rust
+    // codecs: writing it must succeed and keep every class; its contents are cross-checked by lua_copy()
+    rep.evaluations += 1;
+    match catch(|| serde_json::to_value(db).map_err(|e| e.to_string())) {
+        Ok(Ok(v)) => {
+            let n = v["Classes"].as_object().map(|o| o.len()).unwrap_or(0);
+            if n != db.classes.len() {
+                rep.violation("C16:reserialize:json:classes", &format!("the JSON form holds {} classes, the database {}", n, db.classes.len()), json!({"cmd": "c16", "part": "reserialize"}), J::Null);
+            }
+            let props: usize = v["Classes"].as_object().map(|o| o.values().map(|c| c["Properties"].as_object().map(|p| p.len()).unwrap_or(0)).sum()).unwrap_or(0);
+            let want_props: usize = db.classes.values().map(|c| c.properties.len()).sum();
+            if props != want_props {
+                rep.violation("C16:reserialize:json:descriptors", &format!("the JSON form holds {} property descriptors, the database {}", props, want_props), json!({"cmd": "c16", "part": "reserialize"}), J::Null);
+            }
+        }
+        Ok(Err(e)) => rep.violation("C16:reserialize:json:error", &e, json!({"cmd": "c16", "part": "reserialize"}), J::Null),
+        Err(p) => rep.violation("C16:reserialize:json:panic", &p.msg, json!({"cmd": "c16", "part": "reserialize"}), J::Null),
+    }
+    for (name, f) in encodings {
+        rep.evaluations += 1;
+        rep.count(&format!("reserialize.{}", name));
+        let replay = json!({"cmd": "c16", "part": "reserialize", "encoding": name});
+        match catch(|| f()) {
+            Err(p) => rep.violation(&format!("C16:reserialize:{}:panic", name), &p.msg, replay, J::Null),
+            Ok(Err(e)) => rep.violation(&format!("C16:reserialize:{}:error", name), &format!("the database does not survive its own {} encoding: {}", name, e), replay, J::Null),
+            Ok(Ok(back)) => {
+                let got = describe(&back);
+                rep.add(&format!("reserialize.{}.facts_compared", name), want.len() as u64);
+                let missing: Vec<&String> = want.keys().filter(|k| !got.contains_key(*k)).collect();
+                let extra: Vec<&String> = got.keys().filter(|k| !want.contains_key(*k)).collect();
+                let changed: Vec<&String> = want.iter().filter(|(k, v)| got.get(*k).map(|g| g != *v).unwrap_or(false)).map(|(k, _)| k).collect();
+                if !missing.is_empty() || !extra.is_empty() || !changed.is_empty() {
+                    rep.violation(
+                        &format!("C16:reserialize:{}:differs", name),
+                        &format!("a database regenerated through {} differs from the one it was written from: {} facts lost (e.g. {:?}), {} gained, {} changed (e.g. {:?})",
+                                 name, missing.len(), missing.iter().take(3).collect::<Vec<_>>(), extra.len(), changed.len(), changed.iter().take(3).collect::<Vec<_>>()),
+                        replay,
+                        J::Null,
+                    );
+                }
+            }
+        }
+    }
+}
+
 /// Every (class, own descriptor name) once through the writers' and readers' lookup paths.
 fn lookups(rep: &mut Report, shard: u64, nshards: u64) {
     let db = dbwalk::db();
@@ -622,6 +713,7 @@ pub fn main(a: &Args) {
         structural(&mut rep);
         lua_copy(&mut rep, &repo);
         custom_database(&mut rep);
+        reserialize(&mut rep);
     }
     default_instances(&mut rep, shard, nshards);
     default_fill(&mut rep, shard, nshards);
